@@ -7,7 +7,9 @@ def run(tier):
     exe = vlib.build(["drv_imagecodec"])["drv_imagecodec"]
     c.mc("ImageCodec", "MC_ImageCodec", "MC_ImageCodec.cfg", workers=4, timeout=900)
     nsh = 12 if tier == "quick" else 16
-    traces = c.drive(exe, [["@OUT", tier, vlib.SEED, i, nsh] for i in range(nsh)], tag="img")
+    traces = []
+    for k, sd in enumerate(vlib.seeds(tier, 6)):
+        traces += c.drive(exe, [["@OUT", tier, sd, i, nsh] for i in range(nsh)], tag="img%d" % k)
     bads = c.validate("ImageCodec", "Trace_ImageCodec", traces, timeout=3400, xmx="6g")
     c.judge(bads)
     c.exhaustive = False
